@@ -33,18 +33,31 @@ def declared(step, doc):
     return True
 
 
-def undo_single(ctx, info, doc, step, res_doc, reqs, metas, origin, expect_known=False):
+def undo_single(ctx, info, doc, step, res_doc, reqs, metas, origin, expect_known=False, oracle=True):
+    """`oracle=False`: an attribute step naming an attribute the node does not declare — outside the property's
+    quantifier, so no violation is raised, but the model's `invert` is tied to the real one all the same"""
     replay = {"schema": info.name, "doc": doc.to_json(), "step": step.to_json(), "origin": origin}
     ctx.case(["undo", info.name, doc.to_json(), step.to_json()],
              sample={"op": "invert+apply", "schema": info.name, "step": step.to_json(), "origin": origin})
     ctx.count("undo:" + type(step).__name__)
     sti, inv = outcome(lambda: step.invert(doc))
     if sti != "ok":
-        ctx.violation("invert-raises", f"Step.invert raised {inv} on a step that applied", replay)
+        if oracle:
+            ctx.violation("invert-raises", f"Step.invert raised {inv} on a step that applied", replay)
+        else:
+            # the model must not build an inverse either
+            ctx.count("undeclared-attr:invert-raises")
+            reqs.append({"op": "invert", "s": info.lean_id, "doc": info.node(doc), "step": info.step(step)})
+            metas.append(("invert-raises", replay, None))
         return
     stb, back = outcome(lambda: inv.apply(res_doc))
     ok = stb == "ok" and back.doc is not None and back.doc.eq(doc)
     detail = None
+    if not oracle:
+        ctx.count("undeclared-attr:" + ("restored" if ok else "not-restored"))
+        reqs.append({"op": "invert", "s": info.lean_id, "doc": info.node(doc), "step": info.step(step)})
+        metas.append(("invert", replay, (info, doc, res_doc, ok)))
+        return
     if not ok:
         detail = back.failed if stb == "ok" else str(back)
         r = dict(replay, inverse=inv.to_json(), outcome=stb, detail=str(detail)[:200], after=res_doc.to_json(),
@@ -113,6 +126,10 @@ def run(ctx):
                 continue
             if op == "familyGuard":
                 c04_ops.compare(ctx, replay, payload, out)
+                continue
+            if op == "invert-raises":
+                if "ok" in out:
+                    ctx.mismatch("invert", replay, "impl invert raises", out)
                 continue
             info, doc, res_doc, impl_ok = payload
             if "ok" not in out:
@@ -220,8 +237,8 @@ def run(ctx):
                 c04_ops.request(ctx, info, tr.docs[k], s, nxt, owner[k],
                                 stb == "ok" and back.doc is not None and back.doc.eq(tr.docs[k]), reqs, metas,
                                 {"schema": info.name})
-            if isinstance(s, SINGLE_UNDO) and declared(s, tr.docs[k]):
-                undo_single(ctx, info, tr.docs[k], s, nxt, reqs, metas, "history")
+            if isinstance(s, SINGLE_UNDO):
+                undo_single(ctx, info, tr.docs[k], s, nxt, reqs, metas, "history", oracle=declared(s, tr.docs[k]))
             elif isinstance(s, c04_marks.MARK_STEPS):
                 # range mark steps: the guard of their naive inverse (exact tie) and the planner theorems
                 c04_marks.single(ctx, info, tr.docs[k], s, nxt, reqs, metas, "history",
@@ -270,11 +287,11 @@ def run(ctx):
                     if st == "ok" and res.doc is not None:
                         c04_marks.single(ctx, info, d, step, res.doc, reqs, metas, "primitive")
                     continue
-                if not isinstance(step, SINGLE_UNDO) or not declared(step, d):
+                if not isinstance(step, SINGLE_UNDO):
                     continue
                 st, res = outcome(lambda: step.apply(d))
                 if st == "ok" and res.doc is not None:
-                    undo_single(ctx, info, d, step, res.doc, reqs, metas, "primitive")
+                    undo_single(ctx, info, d, step, res.doc, reqs, metas, "primitive", oracle=declared(step, d))
             if info.name == "bridge":
                 for step in bridge_steps(d):
                     st, res = outcome(lambda: step.apply(d))
